@@ -375,6 +375,23 @@ func Equal(a, b expr.Expr) bool {
 	panic(fmt.Sprintf("refir: unknown expr %T", a))
 }
 
+// Clone deep-copies an expression tree (constants get fresh byte slices).
+func Clone(e expr.Expr) expr.Expr {
+	switch x := e.(type) {
+	case expr.Const:
+		return expr.NewConst(append([]byte(nil), x.Bytes()...), x.Width())
+	case expr.RegLoad:
+		return expr.NewRegLoad(x.Key(), x.Width())
+	case expr.MemLoad:
+		return expr.NewMemLoad(x.Key(), Clone(x.Addr()), x.Width())
+	case expr.Binary:
+		return expr.NewBinary(x.Op(), Clone(x.Arg1()), Clone(x.Arg2()), x.Width())
+	case expr.Less:
+		return expr.NewLess(Clone(x.Arg1()), Clone(x.Arg2()), Clone(x.ExprTrue()), Clone(x.ExprFalse()), x.Width())
+	}
+	panic(fmt.Sprintf("refir: unknown expr %T", e))
+}
+
 // Children returns direct subexpressions in documented order.
 func Children(e expr.Expr) []expr.Expr {
 	switch x := e.(type) {
